@@ -54,9 +54,10 @@ TMove ==
   /\ IsEvent("Move") /\ UNCHANGED <<tb, hist, stalled>>
   /\ CASE Ev.role = "S" -> /\ spc = Ev.from /\ SenderNext /\ spc' = Ev.to
                            /\ ("errc" \in DOMAIN Ev => rerr'["S"] = Ev.errc)
-       [] Ev.role = "R" -> /\ rpc = Ev.from
-                           /\ IF "timeout" \in DOMAIN Ev THEN R_Timeout ELSE (R_Begin \/ R_Resume \/ R_Info \/ R_Done \/ R_Exit)
-                           /\ rpc' = Ev.to
+       [] Ev.role = "R" -> \* (the harness sees a receiver blocked in Read; whether inside a packet is the model's knowledge)
+                           /\ (rpc = Ev.from \/ (rpc = "midread" /\ Ev.from = "read"))
+                           /\ IF "timeout" \in DOMAIN Ev THEN R_Timeout ELSE (R_Begin \/ R_Resume \/ R_MidWake \/ R_Info \/ R_Done \/ R_Exit)
+                           /\ (rpc' = Ev.to \/ (rpc' = "midread" /\ Ev.to = "read"))
                            /\ ("errc" \in DOMAIN Ev => rerr'["R"] = Ev.errc)
        [] Ev.role = "W" -> /\ wpc = (IF Ev.from = "wake" THEN "wait" ELSE Ev.from) /\ WatchNext /\ wpc' = Ev.to
                            /\ ("errc" \in DOMAIN Ev => rerr'["W"] = Ev.errc)
